@@ -697,6 +697,12 @@ func Run(r *fw.Run) {
 			"go 1", "go 1.x", "go", "go 1.21 1.22", "toolchain go", "toolchain", "toolchain a b", "godebug x", "godebug =", "godebug", "godebug a=b c=d", "tool", "tool a b", "tool /v1",
 			"module a.com/x b", "module", "module /v1", "use ../x y", "use", "use x",
 		}
+		// the empty string (interpreted and raw) in every argument position of every directive
+		for _, e := range []string{`""`, "``"} {
+			bad = append(bad, "replace a.com/x => "+e, "replace a.com/x v1.0.0 => "+e+" v1.0.0", "replace a.com/x => "+e+" v1.0.0", "replace "+e+" => ../x", "replace a.com/x "+e+" => ../x", "replace a.com/x => ../x "+e,
+				"require "+e+" v1.0.0", "require a.com/x "+e, "exclude "+e+" v1.0.0", "exclude a.com/x "+e, "retract "+e, "retract ["+e+", v1.0.0]", "retract [v1.0.0, "+e+"]",
+				"module "+e, "go "+e, "toolchain "+e, "godebug "+e, "tool "+e, "use "+e, "ignore "+e, e+" a.com/x v1.0.0", "require a.com/x v1.0.0 "+e)
+		}
 		r.Bounds["semantic_error_directives"] = len(bad)
 		for _, b := range bad {
 			verb, rest, _ := strings.Cut(b, " ")
